@@ -74,6 +74,10 @@ func (self *Interpreter) letStatement(node ast.AnalyzedLetStatement) *value.Inte
 	// TODO: is this ok? is it required to dynamically cast a value in here?
 	newValue, i := value.DeepCast(*rhsVal, node.OptType, node.Range, false)
 	if i != nil {
+		// a failed cast is a normal (catchable) exception, just like on the VM
+		if castErr, isRuntimeErr := (*i).(value.RuntimeErr); isRuntimeErr && castErr.ErrKind == value.CastErrorKind {
+			return value.NewThrowInterrupt(castErr.Span, "Cast error: "+castErr.MessageInternal)
+		}
 		return i
 	}
 
